@@ -47,9 +47,10 @@ type Conn struct {
 	CutReset    bool  // cut shows as ECONNRESET instead of io.EOF
 	Cuts        []int // absolute offsets: a Read never returns bytes across one of them
 	OneByte     bool  // every Read returns at most one byte
+	EOFWithData bool  // the Read returning the last byte before a cut also returns the cut's error
 	StallWrites bool  // Write blocks until its deadline or Close
 
-	ReadBytes     int // total bytes the client has consumed
+	ReadBytes       int // total bytes the client has consumed
 	CallsAfterClose []string
 
 	// Holder tracking for pool checks: Owner is set by the harness; a call made while
@@ -110,6 +111,20 @@ func (c *Conn) Deliver(b []byte) {
 	}
 	c.in = append(c.in, b...)
 	c.sent += len(b)
+	c.mu.Unlock()
+	c.kickR()
+}
+
+// DeliverAndCut delivers b and ends the stream in one step: with EOFWithData the Read that
+// returns the last of these bytes also returns the end-of-stream error, as a transport may
+// (io.Reader allows n > 0 together with an error; crypto/tls does it when the peer's
+// close_notify travels with the last record).
+func (c *Conn) DeliverAndCut(b []byte) {
+	vsched.PointObj("peer.Deliver", c.obj())
+	c.mu.Lock()
+	c.in = append(c.in, b...)
+	c.sent += len(b)
+	c.eof = true
 	c.mu.Unlock()
 	c.kickR()
 }
@@ -188,6 +203,11 @@ func (c *Conn) Read(p []byte) (int, error) {
 			c.inOff += n
 			c.ReadBytes += n
 			c.note("read")
+			if c.EOFWithData && c.eof && len(c.in) == 0 {
+				err := c.cutErr()
+				c.mu.Unlock()
+				return n, err
+			}
 			c.mu.Unlock()
 			return n, nil
 		}
